@@ -15,7 +15,7 @@ pub fn props() -> Vec<Prop> {
             id: "C06",
             run: c06,
             tools: None,
-            rule: "byte-vector model (path -> Vec<u8>) stepped in lock-step with seeded histories of write_all / write_lines / append_all / append_line / append_lines / write() and append() handles (also kept open across calls on other files) / copy / move_p over 4 files in 2 directories with hostile data (empty, 1 byte, multi-byte UTF-8, invalid UTF-8, embedded \\n and \\r\\n, 4 KiB and 64 KiB blocks, every payload tagged with a unique id); after every call ALL files are re-read through read(), read_all() and read_lines() (and std::fs::read on Stdfs) and compared with the model, so a write that leaks into another file or an aliased copy is seen at once; read_lines(write_lines(ls)) == ls for terminator-free non-empty lines. Both backends. distinct_nontrivial = distinct (backend, operation, data class, pre-existing content class) tuples.",
+            rule: "byte-vector model (path -> Vec<u8>) stepped in lock-step with seeded histories of write_all / write_lines / append_all / append_line / append_lines / write() and append() handles (also kept open across calls on other files) / copy / move_p over 4 files in 2 directories with hostile data (empty, 1 byte, multi-byte UTF-8, invalid UTF-8, embedded \\n and \\r\\n, 4 KiB and 64 KiB blocks, every payload tagged with a unique id); after every call ALL files are re-read through read(), read_all() and read_lines() (and std::fs::read on Stdfs) and compared with the model, so a write that leaks into another file or an aliased copy is seen at once; read_lines(write_lines(ls)) == ls for terminator-free non-empty lines. Both backends. distinct_nontrivial = distinct (backend, operation, data class, pre-existing content class) tuples. Later addition: every file is also read through a handle that has already been used (read 1, seek(End(-k)), read_to_end, seek(Start(1)), read_to_end).",
             assumptions: &["a handle kept open is only interleaved with calls on OTHER files (what two writers to one file see is not stated)", "the Stdfs half runs as uid 1000 in a private sandbox"],
             shards_quick: 8,
             shards_thorough: 16,
